@@ -89,6 +89,9 @@ def append_advance(prog, res, slots):
 
 
 def write_all(prog, res):
+    """The write-all loop: per iteration the buffer position and the file
+    offset handed to pwrite advance by the same amount, namely the result of
+    the previous pwrite, on every path back to the loop head."""
     f = prog.func("file_write")
     res.touched(f)
     pw = [(b, i, s) for b, i, s in paths.calls_to(prog, f, {"pwrite"})]
@@ -96,47 +99,76 @@ def write_all(prog, res):
         raise AnalysisBroken("file_write no longer calls pwrite")
     for b, i, s in pw:
         call = [c for c in ir.calls_in(s) if c.get("fn") == "pwrite"][0]
-        buf, off = ir.strip(call["args"][1]), ir.strip(call["args"][3])
+        buf, off = call["args"][1], call["args"][3]
         resvar = None
         for lv, op, rhs, whole in ir.writes_of(s):
-            if any(c is call for c in ir.calls_in(rhs)) and lv.get("k") == "var":
+            if rhs is not None and any(c is call for c in ir.calls_in(rhs)) and lv.get("k") == "var":
                 resvar = lv
-        if resvar is None or buf.get("k") != "var" or off.get("k") != "var":
-            res.fail("R-WRITEALL", "file_write: pwrite shape", "R-WRITEALL|shape", f.loc(s),
-                     "cannot identify buffer cursor, offset and result of the pwrite call")
-            continue
         loop = paths.innermost_loop(f, b)
         if not loop:
-            res.fail("R-WRITEALL", "file_write: loop", "R-WRITEALL|no-loop", f.loc(s),
+            res.fail("R-WRITEALL", "file_write: pwrite in a loop", "R-WRITEALL|no-loop", f.loc(s),
                      "pwrite is not inside a loop: a short write truncates the data")
+            continue
+        if resvar is None:
+            res.fail("R-WRITEALL", "file_write: result of pwrite kept", "R-WRITEALL|no-result", f.loc(s),
+                     "the number of bytes pwrite reports is not kept: the loop cannot resume after a short write")
             continue
         heads = [h for h, body in paths.natural_loops(f) if body == loop]
         head = heads[0]
-        for v, what in ((buf, "buffer cursor"), (off, "file offset")):
+        # loop-carried advances:  v += <result>
+        adv = {}
+        for bb in loop:
+            for ss in f.blocks[bb].stmts:
+                for lv, op, rhs, whole in ir.writes_of(ss):
+                    if lv.get("k") == "var" and op == "+=" and ir.strip(rhs).get("k") == "var" and \
+                            ir.strip(rhs)["id"] == resvar["id"]:
+                        adv[lv["id"]] = lv["n"]
+
+        def variant(e):
+            return {y["id"] for y in ir.walk(e) if y.get("k") == "var" and y["id"] in adv}
+        vb, vo = variant(buf), variant(off)
+        for what, vs, expr in (("buffer position", vb, buf), ("file offset", vo, off)):
+            inst = "file_write: %s %s advances by the bytes written" % (what, ir.render(expr))
+            if vs:
+                res.oblige("R-WRITEALL", inst, True, "through %s += %s" % (sorted(adv[v] for v in vs), resvar["n"]), f.loc(s))
+            else:
+                res.fail("R-WRITEALL", inst, "R-WRITEALL|%s" % what.replace(" ", "-"), f.loc(s),
+                         "the %s passed to pwrite (%s) does not change from one iteration to the next while the loop resumes after a short write: the remainder of the data is written to the wrong place"
+                         % (what, ir.render(expr)))
+        # each advancing variable is advanced on every path back to the head
+        for v in sorted(vb | vo):
             def advances(ss, v=v):
                 for lv, op, rhs, whole in ir.writes_of(ss):
-                    if lv.get("k") == "var" and lv["id"] == v["id"] and op == "+=" and \
+                    if lv.get("k") == "var" and lv["id"] == v and op == "+=" and \
                             ir.strip(rhs).get("k") == "var" and ir.strip(rhs)["id"] == resvar["id"]:
                         return True
                 return False
-            # every path from the pwrite back to the loop head passes the advance
-            back = {(t, len(f.blocks[t].stmts)) for t in loop if head in f.blocks[t].succ_ids()}
-            # destination = reaching the head again: model as position (head,0)
-            ok, w = paths.all_paths_pass(f, (b, i), {(head, 0)} if f.blocks[head].stmts else back, advances)
-            inst = "file_write: %s %s += %s each iteration" % (what, v["n"], resvar["n"])
+            dst = {(head, 0)} if f.blocks[head].stmts else "exit"
+
+            def failed_edge(blk, succ):
+                # the edge on which pwrite reported an error: nothing was written
+                c0 = ir.strip(blk.cond_node())
+                if isinstance(c0, dict) and c0.get("k") == "bin" and c0.get("op") in ("<", "<=") and \
+                        ir.strip(c0["l"]).get("k") == "var" and ir.strip(c0["l"])["id"] == resvar["id"] and ir.is_const(c0["r"], 0):
+                    return succ.get("label") == "true"
+                return False
+            ok, w = paths.all_paths_pass(f, (b, i), dst, advances, edge_ok=failed_edge)
+            inst = "file_write: %s += %s on every path to the next iteration" % (adv[v], resvar["n"])
             if ok:
-                res.oblige("R-WRITEALL", inst, True, "on every path back to the loop head", f.loc(s))
+                res.oblige("R-WRITEALL", inst, True, "", f.loc(s))
             else:
-                res.fail("R-WRITEALL", inst, "R-WRITEALL|%s" % what.replace(" ", "-"), f.loc(s),
-                         "file_write can start the next iteration without advancing the %s by the number of bytes written" % what,
+                res.fail("R-WRITEALL", inst, "R-WRITEALL|skip|%s" % adv[v], f.loc(s),
+                         "file_write can start the next iteration without adding the bytes written to '%s'" % adv[v],
                          {"path_blocks": w})
-        # a negative result must not be added: the error test dominates the advance
-        def neg_test(c, lab, blk):
+
+        def neg_test(c):
             c0 = ir.strip(c)
-            return isinstance(c0, dict) and c0.get("k") == "bin" and c0.get("op") == "<" and \
+            return isinstance(c0, dict) and c0.get("k") == "bin" and c0.get("op") in ("<", "<=") and \
                 ir.strip(c0["l"]).get("k") == "var" and ir.strip(c0["l"])["id"] == resvar["id"] and \
-                ir.is_const(c0["r"], 0)
-        has = any(neg_test(bb.cond_node(), None, bb) for bb in f.blocks.values() if bb.cond_node() is not None)
+                ir.is_const(c0["r"], 0) or \
+                (isinstance(c0, dict) and c0.get("k") == "bin" and c0.get("op") == "==" and ir.is_const(c0["r"], -1)
+                 and ir.strip(c0["l"]).get("k") == "var" and ir.strip(c0["l"])["id"] == resvar["id"])
+        has = any(neg_test(bb.cond_node()) for bb in f.blocks.values() if bb.cond_node() is not None)
         inst = "file_write: negative result tested"
         if has:
             res.oblige("R-WRITEALL", inst, True, "result < 0 is tested inside the loop", f.loc(s))
@@ -270,7 +302,7 @@ def run(ctx, res):
     uri_strip(prog, res, slots)
     res.require_min("CURSOR-SIM", 4)
     res.require_min("R-APPEND-ADVANCE", 1)
-    res.require_min("R-WRITEALL", 3)
+    res.require_min("R-WRITEALL", 4)
     res.require_min("LOOP-PROGRESS", 1)
     res.require_min("T-CONST", 4)
     res.require_min("R-URI-STRIP", 1)
